@@ -15,7 +15,7 @@ _M = None
 G1 = 2                      # a module global
 GOBJ = types.SimpleNamespace(v=3, inner=types.SimpleNamespace(w=4), lst=[1, 5], d={'k': 2})
 def gfun(x): return x + 1
-
+from contracts.c04_frames_lib import *          # functions and generators made in ANOTHER module (whose global G1 is 4), handed to query methods from here
 
 class _Rejected(list):
     pass
@@ -151,11 +151,37 @@ def scenarios():
         q2 = q.filter(lambda x: x.p < a)
         return ps(q2)
     add('filter chain captures values when each part is built', filter_chain, [2, 3, 4])
+    def chain_same_code():
+        f = lambda a: (lambda x: x.p != a)              # ONE code object applied twice in a chain, with different closure values
+        g = lambda a: (lambda x: x.p != a + 4)
+        return ps(X.select().filter(f(1)).filter(f(2))), ps(X.select(g(1)).where(f(0)).filter(g(2)).filter(f(7)))
+    add('one code object used twice in a filter chain', chain_same_code, ([0, 3, 4, 5, 6, 7], [1, 2, 3, 4]))
     def nested_generator():
         lim = 2
         inner = orm.select(y.p for y in X if y.p < lim)
         return ps(orm.select(x for x in X if x.p in inner)), ps(orm.select(x for x in X if x.p in (y.p for y in X if y.p > 7 - lim)))
     add('outer values inside subqueries', nested_generator, ([0, 1], [6, 7]))
+    # a function / generator object made elsewhere: its names mean what they mean where it was written, whatever the frame that hands it to the query method calls its own variables
+    def foreign(kind):
+        def user():
+            G1 = 6; a = 7; len = lambda s: 5; x = 1                       # unrelated locals of the calling frame, same names
+            if kind == 'select': return ps(X.select(make_closure_lambda(3))), ps(X.select(make_global_lambda())), ps(X.select(make_builtin_lambda()))
+            if kind == 'filter': return ps(X.select().filter(make_closure_lambda(3))), ps(X.select().filter(make_global_lambda())), ps(X.select().filter(make_builtin_lambda()))
+            if kind == 'where': return ps(orm.select(x for x in X).where(make_closure_lambda(3))), ps(orm.select(x for x in X).where(make_global_lambda())), ps(orm.select(x for x in X).where(make_builtin_lambda()))
+            if kind == 'order_by':
+                return ([y.p for y in X.select().order_by(make_closure_order(3))][-1:], [y.p for y in X.select().order_by(make_global_order())][-1:],
+                        [y.p for y in X.select().order_by(make_builtin_order())][-1:])
+            if kind == 'get_exists':
+                return [X.get(make_closure_lambda(3)).p], [X.get(make_global_lambda()).p], [X.exists(make_closure_lambda(9)), X.exists(make_global_lambda()), X.exists(make_builtin_lambda())]
+            if kind == 'generator': return ps(orm.select(make_closure_generator(X, 3))), ps(orm.select(make_global_generator(X))), [orm.count(make_global_generator(X))]
+        return user
+    for kind in ('select', 'filter', 'where', 'order_by', 'get_exists'):
+        add('function object made elsewhere: ' + kind, foreign(kind), ([3], [4], [3]) if kind != 'get_exists' else ([3], [4], [False, True, True]))
+    add('generator object made elsewhere', foreign('generator'), ([7], [4], [1]))
+    def inlined_helper():
+        G1 = 6
+        return ps(sel(x for x in X if helper_plus(x) == 5)), ps(X.select(lambda x: helper_plus(x) == 5 + G1 - 6))
+    add('helper function inlined into the query reads its own globals', inlined_helper, ([1], [1]))
     return out
 
 
